@@ -3,7 +3,7 @@ Model/Eip712Values.v (Run/DC08.v); conformance is decided independently in Pytho
 import json
 
 from gen import prims, pyref, tdgen, txgen
-from gen.util import lib_vs_model, short
+from gen.util import model_over_dumps, lib_vs_model, short
 
 DRIVERS = ["C08"]
 NEEDS = dict(cli=True, harness=True, shim=False, release=False)
@@ -156,6 +156,13 @@ def run(ctx):
     add(doc("uint8", 1.5), False, "wrong-kind/uint8")
     add(doc("uint256", "-0"), False, "wrong-kind/uint-minus-zero-string")
     add(doc("int256", "-0"), True, "wrong-kind/int-minus-zero-string")
+    # objects that JSON libraries use internally to smuggle numbers / raw values through their data model (serde_json's
+    # arbitrary_precision and raw_value features): where a number is declared they are objects, i.e. the wrong kind
+    for ty in ("uint256", "uint8", "int8", "uint16[]", "int256"):
+        for key, val in (("$serde_json::private::Number", "100"), ("$serde_json::private::Number", "1e2"), ("$serde_json::private::RawValue", "100"),
+                         ("$numberLong", "100"), ("$serde_json::private::Number", 100)):
+            v = {key: val}
+            add(doc(ty, [v] if ty.endswith("[]") else v), False, "wrong-kind/number-smuggling-object")
     # ---- offences planted in random conforming documents
     for _ in range(60 if not thorough else 600):
         types, primary = tdgen.rand_types(rng, nstructs=rng.randrange(2, 6))
@@ -175,7 +182,7 @@ def run(ctx):
     docs = [c[0] for c in cases]
     impl = ctx.harness([("typeddata", d) for d in docs])
     dumps = ctx.harness([("json.dump", d.encode()) for d in docs])
-    mod = ctx.model(["c08_compute %s" % txgen.coq_json(du.fields[0].decode()) for du in dumps], label="C09", timeout=1800)
+    mod = model_over_dumps(ctx, dumps, "c08_compute %s", "C09", timeout=1800)
     for (d, ok, cls), r, m in zip(cases, impl, mod):
         case = dict(op="TypedData", cls=cls, document=short(d, 420))
         ctx.count(cls)
